@@ -582,7 +582,12 @@ def check(s):
     check_info_siblings(s)
     check_stage_b(s)
     check_assets(s)
-    for r_, n_ in (("C17.14", 22), ("C17.1", 30), ("C17.2", 4), ("C17.3", 4), ("C17.4", 9), ("C17.5", 8), ("C17.7", 88), ("C17.8", 18), ("C17.9", 11), ("C17.10", 100), ("C17.11", 30),
+    # C17.15 configuration wiring: a weight / range / flag given to the constructor is the one the like-named attribute holds
+    from .util import ctor_wiring
+    n15 = 0
+    for cls in list(MUJOCO) + ["CartPole", "MountainCar", "ContinuousMountainCar", "Acrobot", "Pendulum"]:
+        n15 += ctor_wiring(s, "C17.15", cls, necessary_for="the reward weights, limits and flags of the reference MDP are the ones configured (defaults equal Gymnasium's: C17.7)")
+    for r_, n_ in (("C17.14", 22), ("C17.15", 100), ("C17.1", 30), ("C17.2", 4), ("C17.3", 4), ("C17.4", 9), ("C17.5", 8), ("C17.7", 88), ("C17.8", 18), ("C17.9", 11), ("C17.10", 100), ("C17.11", 30),
                    ("C17.12", 5), ("C17.13", 20)):
         s.floor(r_, n_)
 
